@@ -90,12 +90,15 @@ class Management:
         if address in self._connections:
             raise ManagementConnectionError(f"Connection to {address} already exists.")
         p2p_connection = P2PConnection(self.xknx, address, rate_limit)
+        # Register before connecting: the device may answer - e.g. refuse with a
+        # T_Disconnect - before the confirmation of our T_Connect has been awaited.
+        self._connections[address] = p2p_connection
         try:
             await p2p_connection.connect()
         except ManagementConnectionError as exc:
+            del self._connections[address]
             logger.error("Establishing connection to %s failed: %s", address, exc)
             raise
-        self._connections[address] = p2p_connection
 
         def remove_connection_hook() -> None:
             """Remove connection from management."""
@@ -236,17 +239,21 @@ class P2PConnection:
             source_address=self.xknx.current_address,
             tpci=TConnect(),
         )
+        # Set before sending: a T_Disconnect answering our T_Connect may be processed
+        # before send_telegram() returns and must not be overwritten afterwards.
+        self._connected = True
         try:
             await self.xknx.cemi_handler.send_telegram(connect)
         except ConfirmationError as exc:
+            self._connected = False
             self._response_waiter.cancel()
             raise ManagementConnectionError(
                 f"Connection to {self.address} failed: {exc}"
             ) from exc
         except CommunicationError as exc:
+            self._connected = False
             self._response_waiter.cancel()
             raise ManagementConnectionError("Error while sending Telegram") from exc
-        self._connected = True
 
     async def disconnect(self) -> None:
         """Disconnect from the KNX device. Sends T_Disconnect-PDU (= A_Disconnect, see connect())."""
